@@ -107,6 +107,24 @@ def make_case(graphs):
             v.append(("transclude:manifest-duplicate", "manifest lists a file twice: %r" % [m.replace(_dir, "<dir>") for m in man], case_d))
         elif not r.cyclic and sorted(man) != sorted(r.manifest):
             v.append(("transclude:manifest-differs", "manifest %r, expected %r" % (sorted(m.replace(_dir, "<dir>") for m in man), sorted(m.replace(_dir, "<dir>") for m in r.manifest)), case_d))
+        # the public manifest entry point must list the same files as the transclusion itself
+        if not r.cyclic:
+            man_api = mmd.manifest(files[top], _dir.encode(), top.encode())
+            rh = Ref(files, 0); rh.expand(files[top], _dir + "/", top, [])          # the manifest entry point has no format argument: wildcards resolve as for HTML
+            if sorted(set(man_api)) != sorted(rh.manifest):
+                v.append(("transclude:manifest-api-differs", "mmd_string_transclusion_manifest lists %r, expected %r" % (sorted(m.replace(_dir, "<dir>") for m in man_api), sorted(m.replace(_dir, "<dir>") for m in rh.manifest)), case_d))
+        # the same top-level file with its own 'transclude base' (markers then resolve inside <dir>/base/)
+        if fi == 3:
+            body2 = b"transclude base: base\n\n" + files[top]; open(top, "wb").write(body2); files2 = dict(files); files2[top] = body2
+            r2 = Ref(files2, fmt); exp2 = r2.expand(body2, _dir + "/", top, [])
+            got2, man2 = mmd.transclude(body2, _dir.encode(), top.encode(), fmt)
+            if not r2.cyclic:
+                if got2 != exp2: v.append(("transclude:substitution-differs:top-level-transclude-base", "result %r, reference %r" % (got2.replace(_dir.encode(), b"<dir>"), exp2.replace(_dir.encode(), b"<dir>")), case_d))
+                man3 = mmd.manifest(body2, _dir.encode(), top.encode())
+                rh2 = Ref(files2, 0); rh2.expand(body2, _dir + "/", top, [])
+                if sorted(set(man3)) != sorted(rh2.manifest) or sorted(set(man2)) != sorted(r2.manifest):
+                    v.append(("transclude:manifest-differs:top-level-transclude-base", "manifest API %r, transclusion %r, expected %r" % (sorted(m.replace(_dir, "<dir>") for m in man3), sorted(m.replace(_dir, "<dir>") for m in man2), sorted(m.replace(_dir, "<dir>") for m in r2.manifest)), case_d))
+            open(top, "wb").write(files[top])
         return (pmap.h64(repr(g).encode() + bytes([fi])), v, dict(judged=1, cyclic=1 if r.cyclic else 0))
     return case
 
